@@ -50,6 +50,17 @@ CLAIMED = {
         "note": "Assumes numpy / pydantic / CoolProp are deterministic and keep no cross-call state that affects results; bit-exact equality with a fresh interpreter is not decided. "
                 "Declared exceptions (one symbol each, with reason, in rules/effect.py): StreamCollection sort cache fields, utils.decorators timing counters/logger, classes.value.ureg.",
     },
+    "C05": {
+        "category": "other",
+        "technique": "static analysis: context-sensitive abstract interpretation with a two-point temperature-scale type (shifted/real) on tables, temperature columns and "
+                     "stream-bound arrays; boolean scale flags propagated as constants from the pipeline roots, defaults applied to omitted arguments; row-insert view typestate",
+        "text": "Decides the scale-coherence clause of C05 on every call chain from the direct and indirect integration entry functions: no comparison or subtraction relates "
+                "a shifted-scale temperature to a real-scale one (so the stream activity test of each table uses the bounds of that table's own scale), the table in the real "
+                "role is real and the other shifted, and the graph slices named 'Shifted X' / X come from the matching table. The report names the call chain and flag context.",
+        "design_ref": "DESIGN.md 3.2 SCALE, INVAL",
+        "note": "Structural clause only: per-row enthalpy integrals, the cold-curve offset, tolerances and rounding are numeric and NOT decided. "
+                "Assumes scale flags are plain boolean parameters/constants (they are on the pinned tree); operand pairs with unknown scale are counted in the evidence, not guessed.",
+    },
 }
 
 _NOT_BUILT = "claimed in DESIGN.md but the check is not built yet in this round"
